@@ -473,6 +473,7 @@ def explore(ex, key, c, first_choice=None):
             pr.final_pc = list(st.pc)
             pr.assumed_ids = set(getattr(st, 'assumed_ids', ()))
             pr.branches = set(getattr(st, 'branches', ()))
+            pr.branch_pc = dict(getattr(st, 'branch_pc', {}))
             pr.calls = sorted({n_[1] for n_ in st.notes if n_[0] == 'call'})
             pr.callsites = [n_[1:] for n_ in st.notes if n_[0] == 'callsite']
             results.append(pr)
@@ -485,7 +486,10 @@ def explore(ex, key, c, first_choice=None):
     for pr in complete:
         wanted |= getattr(pr, 'branches', set())
     covered = set()
-    for pr in sorted(complete, key=lambda p: -len(getattr(p, 'branches', ()))):
+    # paths that end where a contracted loop body has been verified ('cut') cover the branch outcomes they took as well: the code on them
+    # carries the inv-keep / yield obligations, and a satisfiable one shows that this code is not verified on contradictory paths only
+    covering = complete + [pr for pr in results if pr.outcome and pr.outcome[0] == 'cut' and 'loop body verified' in str(pr.outcome[1]) and not pr.error]
+    for pr in sorted(covering, key=lambda p: -len(getattr(p, 'branches', ()))):
         br = getattr(pr, 'branches', set())
         if br <= covered:
             continue
@@ -507,7 +511,24 @@ def explore(ex, key, c, first_choice=None):
                     break
         if not ok_:
             unsupported.append(f'{key}: no feasible path of the scenario returns - its postconditions were never evaluated (vacuous)')
+    def _dead(bk):
+        # the outcome was infeasible ALREADY WHEN IT WAS TAKEN (path condition up to and including the decision is unsatisfiable): a dead
+        # branch that the exploration normally prunes with the same query - it only got explored because that probe (300 ms) timed out on a
+        # busy machine.  Not a vacuous proof: nothing was assumed after the decision to make the path contradictory.
+        prs = [pr for pr in complete if bk in getattr(pr, 'branches', ())]
+        for pr in prs:
+            k = getattr(pr, 'branch_pc', {}).get(bk)
+            if k is None:
+                return False
+            pre = list(pr.final_pc)[:k]
+            if abstract_check(pre, 3000) == 'unsat':
+                continue
+            if has_big_numeral(pre) or inprocess_check(pre, 3.0)[0] != 'unsat':
+                return False
+        return bool(prs)
     for line, v in sorted(wanted - covered):
+        if _dead((line, v)):
+            continue
         unsupported.append(f'{key}: the {"true" if v else "false"} outcome of the branch at line {line} is reached only on paths whose assumptions are '
                            f'contradictory (vacuous proof refused: check callee summaries / ghost effects used before it)')
     return results, unsupported
